@@ -2,6 +2,7 @@
 From Coq Require Import ZArith List Bool Arith.
 From HV Require Import Far FarFacts.
 From HV Require Import Sprout Tree DriverPrim SproutPrim GenEquivStops GenFar FilterDict GenEquivFar.
+From HV Require GenAccessors GenEquivAccessors.
 Import ListNotations.
 
 (* a deme's centroid is the mean of its CURRENT population: after every recorded generation it is the mean of that generation
@@ -44,3 +45,9 @@ Theorem C09_translated_FarEnough_sound (dist : Z -> nat -> Z) c fuel thr cm s ou
   In sib (level_ids (demes (ms s)) (lvl_at (demes (ms s)) p + 1)) -> d_active (dnth sib (demes (ms s))) = true -> (thr < dist k sib)%Z.
 Proof. exact (FarEnough_sound dist c fuel thr cm s out p ks k sib). Qed.
 Print Assumptions C09_translated_FarEnough_sound.
+
+(* AbstractDeme.centroid, translated from the current abstract_deme.py (Gen/GenAccessors.v): the mean genome of the generation stored LAST,
+   recomputed from the history on every read (compute_centroid: np.mean of the genomes, None for an empty population) *)
+Theorem C09_translated_centroid_is_current {M} (mean : list Z -> M) mx h g : GenAccessors.gen_deme_centroid mean mx (h ++ [[g]]) = mean g.
+Proof. exact (GenEquivAccessors.gen_deme_centroid_current mean mx h g). Qed.
+Print Assumptions C09_translated_centroid_is_current.
